@@ -197,8 +197,74 @@ def corner_case(rng, cones=None):
     return None
 
 
+PROMOTE_CONES = ["theta45", "theta30", "theta60", "acute2", "skew2", "acute3"]
+
+
+def lp_feasible(Wn, lo0, hi0, lo1, hi1, margin):
+    """∃ z ∈ [lo0, hi0], z' ∈ [lo1, hi1] with W(z' − z) ≥ margin ?  (scipy linprog)"""
+    from scipy.optimize import linprog
+
+    m = Wn.shape[1]
+    A = np.hstack([Wn, -Wn])            # variables (z, z'): W z − W z' ≤ −margin
+    res = linprog(np.zeros(2 * m), A_ub=A, b_ub=-np.asarray(margin, dtype=float),
+                  bounds=list(zip(lo0, hi0)) + list(zip(lo1, hi1)), method="highs")
+    return res.status == 0
+
+
+def promote_early_case(rng, tries=200):
+    """VOGP on an acute cone with as many facets as objectives: design 1 dominates design 0 by MORE than the
+    slack (μ_1 = μ_0 + f·s, f between 1 and u*_n/(W u*)_n), design 0 is already known well (tiny box) while
+    design 1's box is still wide and hangs below its truth, so it can neither discard design 0 nor — if the
+    covering test asked the per-facet margins ε·u* instead of W·(ε·u*) — cover it.  The correct test still
+    covers design 0 (the truths themselves are a witness), so it must wait and is discarded later."""
+    for _ in range(tries):
+        cname = rng.choice(PROMOTE_CONES)
+        W = c01.acute_cone(cname)
+        Wn = np.array(W, dtype=float)
+        N, m = Wn.shape
+        if N != m:
+            continue
+        eps = rng.choice([0.2, 0.1, 0.4])
+        s = eps * ustar_estimate(W)
+        Ws = Wn @ s
+        if np.any(Ws <= 1e-9):
+            continue
+        ratio = float(np.max(s / Ws))            # the facet on which ε·u* asks most in units of W·(ε·u*)
+        if ratio < 1.15:
+            continue
+        f = 1.0 + rng.choice([0.25, 0.5, 0.75]) * (min(ratio, 3.0) - 1.0)
+        g = f * s
+        half1 = rng.choice([1.5, 2.0, 3.0]) * float(np.max(np.abs(g))) * np.ones(m)
+        off1 = -(1 - rng.choice([0.05, 0.1])) * half1     # truth near the upper corner
+        tiny = 2.0 ** -8 * np.ones(m)
+        lo0, hi0 = -tiny, tiny
+        lo1, hi1 = g + off1 - half1, g + off1 + half1
+        # correct test: covered (truths are a witness, strictly)
+        if not np.all(Wn @ (g - s) >= 1e-6):
+            continue
+        # per-facet reading W(z' − z) ≥ ε·u*: infeasible over the two boxes (exact LP, independent of the code)
+        if lp_feasible(Wn, lo0, hi0, lo1, hi1, s * (1 - 1e-6)) or not lp_feasible(Wn, lo0, hi0, lo1, hi1, Ws * (1 + 1e-6)):
+            continue
+        # design 0 is not discarded in round 0: some vertex pair fails z' + s ≽ z
+        if all(np.all(Wn @ (v1 + s - v0) >= 0) for v0 in c01.box_vertices(lo0, hi0) for v1 in c01.box_vertices(lo1, hi1)):
+            continue
+        Y = [[0.0] * m, [float(x) for x in g]]
+        off = [[0.0] * m, [float(x) for x in off1]]
+        half = [[float(x) for x in tiny], [float(x) for x in half1]]
+        return {"kind": "run", "alg": "VOGP", "cone": cname, "W": W, "shape": "promote-early", "Y": Y, "eps": eps,
+                "delta": 0.05, "noise_var": 0.01, "conf": rng.choice([32, 9]), "batch": 1,
+                "adv": {"mode": "boxes", "frac": 1.0, "sd0": [[1.0] * m] * 2, "shrink": [0.5] * 2,
+                        "seed": rng.randrange(1 << 30), "tail_shrink": 0.5,
+                        "history": [[off, half], [[[0.0] * m] * 2, [[2.0 ** -8] * m] * 2]]}}
+    return None
+
+
 def gen(ctx):
     rng = ctx.rng
+    for _ in range(ctx.n(8, 160)):
+        c = promote_early_case(rng)
+        if c is not None:
+            yield c
     for _ in range(ctx.n(8, 160)):
         c = corner_case(rng)
         if c is not None:
